@@ -48,7 +48,7 @@ def call(pts, tol, mode):
         tr = Track([Obs(ENUCoords(float(p[0]), float(p[1]), float(k + 1)), ObsTime.readUnixTime(t0 + k)) for k, p in enumerate(pts)])
     try:
         with core.quiet():
-            out = simplify(tr, float(tol), md)
+            out = simplify(tr, int(tol) if tol.denominator == 1 and len(pts) % 2 else float(tol), md)
         kept = []
         for k in range(out.size()):
             o = out.getObs(k)
